@@ -86,3 +86,18 @@ Proof.
   split; [|reflexivity]. cbn [toy_dsa dk_g dk_q dk_p].
   rewrite <- powmod_spec by lia. vm_compute. reflexivity.
 Qed.
+
+(* The group hypothesis g^q = 1 (mod p) is necessary: parameters with q not dividing p-1 -- the kind
+   Python_DSAKey.generate_qp() produces, its loop exits when (p-1) % q is NON-zero -- give
+   signatures that do not verify.  p = 23, q = 7, g = 2^3, x = 3, data = [5], k = 2. *)
+Definition bad_dsa : dsa_key := {| dk_p := 23; dk_q := 7; dk_g := 8; dk_x := 3; dk_y := powmod 8 3 23 |}.
+Lemma dsa_group_hypothesis_needed :
+  (dk_p bad_dsa - 1) mod dk_q bad_dsa <> 0 /\
+  exists data k kinv w,
+    0 <= k /\ (k * kinv) mod dk_q bad_dsa = 1 /\
+    let '(r, s) := dsa_sign bad_dsa data k kinv in
+    (s * w) mod dk_q bad_dsa = 1 /\ 0 < r /\ 0 < s /\ dsa_verify bad_dsa r s data w = false.
+Proof.
+  split; [vm_compute; discriminate|].
+  exists [5], 2, 4, 6. vm_compute. repeat split; try reflexivity; discriminate.
+Qed.
